@@ -28,7 +28,14 @@ def gen_stallwatch(r, tier):
         # the stall must still be noticed and pushed (seed C10d)
         mismatch = r.pick(["none", "none", "none", "quant", "interloper"]) if kind != "cmd" else "none"
         resp = "id" if mismatch != "quant" else f"q:{r.pick([2, 5, 16])}"
-        toks = [f"kind={kind}", "ns=1", f"win={n}", f"map={ident}", "loop=direct m=-", f"resp={resp}", "pwm=0", "origmode=2", "origpwm=0"]
+        # PWM maps with gaps between the supported inputs (sparse user map, limited-resolution fan): the REQUEST is what has
+        # to be raised step by step, whatever the map snaps it to (seed C10f)
+        pmap = ident
+        if mismatch == "none" and r.chance(0.3):
+            st5 = {k: k for k in range(0, 256, r.pick([5, 16]))}
+            st5[255] = 255
+            pmap = r.pick([streams.int_map_tok(st5), streams.int_map_tok({i: (i * 100) // 255 for i in range(256)})])
+        toks = [f"kind={kind}", "ns=1", f"win={n}", f"map={pmap}", "loop=direct m=-", f"resp={resp}", "pwm=0", "origmode=2", "origpwm=0"]
         if kind == "hwmon":
             toks += [f"minp={lo}", f"maxp={hi}", f"startp={lo}", f"avg={fx(avg0)}", "mode=2"]
         else:
